@@ -192,12 +192,12 @@ def judge_geometry(recs):
 def check(run):
     rng = random.Random(run.seed * 7919 + 5)
     thorough = run.tier == 'thorough'
-    common.prove(run, 'C05', ['model/C05Spec.vo'])
+    common.prove(run, 'C05', ['model/C05Spec.vo', 'model/C05MinMax.vo'])
     run.trusted += ['Coq 8.16.1 kernel (coqc); vm_compute for the cases.v evaluation',
                     'tools/py2coq.py (printer) + coq/base/Py.v (interpreter): validated against CPython by stream blw-direct/collapse-direct',
                     'harness stubs (SimpleNamespace/Fraction) and render monitor (Python)']
     run.assumptions += ['vertical stacking/collapsing through the tree is tied by the Frag2 correspondence (C01/C03 streams), not re-proved here',
-                        'min/max re-entry (handle_min_max_width) is monitored, not proved']
+                        'handle_min_max_width is modelled by hand (with_min_max) around the regenerated body and tied by stream blw-minmax-direct']
     # ---- stream 1: block_level_width, direct calls with Fractions, model = interpreter on the regenerated body
     cases = gen_blw(rng, 6000 if thorough else 1500)
     outs = common.run_impl('impl_c05', 'blw', cases)
@@ -226,6 +226,40 @@ def check(run):
                         'distinct = (auto pattern, mode, over-constrained?, cb width)')
     except RuntimeError as exc:
         run.oblige('corr:blw-direct', False, str(exc))
+    # ---- stream 1b: the decorated function (handle_min_max_width), model = with_min_max over the regenerated body
+    mm_cases = []
+    for c in gen_blw(rng, 1200 if thorough else 400):
+        if c['mode'] != 'tuple' and rng.random() < 0.7:
+            continue
+        c = dict(c, mode='tuple')
+        c['minw'] = str(Fraction(rng.choice([0, 0, 0, 5, 30, 80, 200])))
+        c['maxw'] = rng.choice(['inf', 'inf', '0', '10', '50', '120', '400'])
+        mm_cases.append(c)
+    outs = common.run_impl('impl_c05', 'blw_minmax', mm_cases)
+    coq_cases, kept = [], []
+    for c, (st, o) in zip(mm_cases, outs):
+        if st != 'ok':
+            run.fail('block_level_width (with min/max) raised %s' % (o,), {'stream': 'blw-minmax-direct', 'case': c, 'outcome': o},
+                     signature='blw-raise')
+            continue
+        outs_l = '[%s]' % '; '.join(vlit(parse_out(x)) for x in o)
+        coq_cases.append('((%s, %s, %s), (%s, %s, %s, %s, %s, %s), (%s, %s), %s)' % (
+            vlit(c['ml']), vlit(c['mr']), vlit(c['w']), qlit(c['pl']), qlit(c['pr']), qlit(c['bl']), qlit(c['br']),
+            qlit(c['px']), qlit(c['cbw']), qlit(c['minw']), 'None' if c['maxw'] == 'inf' else '(Some %s)' % qlit(c['maxw']), outs_l))
+        kept.append((c, o))
+    try:
+        masks = common.eval_cases('c05mm', PRE + 'Require Import WV.model.C05MinMax.\n',
+                                  '(val * val * val) * (Q * Q * Q * Q * Q * Q) * (Q * option Q) * list val', coq_cases, 'minmax_judge')
+        run.oblige('corr:blw-minmax-direct(model=with_min_max over the regenerated body vs CPython)',
+                   not any(m & 1 for m in masks), str([k for k, m in zip(kept, masks) if m & 1][:2]))
+        for (c, o), m in zip(kept, masks):
+            if m & 2:
+                run.fail('used width violates min-width / max-width', {'stream': 'blw-minmax-direct', 'case': c, 'impl_output': o})
+                break
+        run.count('blw-minmax-direct', len(kept), [(c['ml'] == 'auto', c['mr'] == 'auto', c['w'] == 'auto', c['minw'], c['maxw']) for c, _ in kept],
+                  samples=[{'case': kept[0][0], 'impl': kept[0][1]}] if kept else [])
+    except RuntimeError as exc:
+        run.oblige('corr:blw-minmax-direct', False, str(exc))
     # ---- stream 2: collapse_margin
     lists = [[], [0], [5], [-5], [5, -5], [0, 0]]
     while len(lists) < (3000 if thorough else 800):
